@@ -6,7 +6,9 @@ import (
 	"go/token"
 	"go/types"
 	"golang.org/x/tools/go/cfg"
+	"regexp"
 	"sort"
+	"strconv"
 	"strings"
 )
 
@@ -793,79 +795,147 @@ func checkSetArithmetic(r *Reporter, p *Prog) {
 			r.Fail("arith/routing", key, p.posStr(fd.Pos()), fmt.Sprintf("added elements must go to %s and deleted elements to %s; found %v", want[0], want[1], got))
 		}
 	}
-	collectors := map[string][3]string{
-		"AddedElementsCollector":      {"AddedElements", "DeletedElements", "true"},
-		"SubtractedElementsCollector": {"DeletedElements", "AddedElements", "false"},
+	checkCollectorTable(r, p)
+}
+
+// checkCollectorTable judges the two exported collectors of SetArithmetic end to end, whatever the
+// shape of the unexported factories behind them (one factory with a direction flag, two specialised
+// ones, wrappers that hand a delta and a crossing count to a shared one): following the chain of
+// factory calls from the exported method to the function literal, every parameter of the factory that
+// declares the literal is expressed in terms of what the exported method handed in - ADDED / DELETED
+// (the two element sets of the mutations), T (the threshold, defaulting to 1), constants. Then, per
+// collector:
+//
+//	step      the count function returns <current>+1 (Added) / <current>-1 (Subtracted)
+//	crossing  the element is collected only where the new count == T (Added) / T-1 (Subtracted)
+//	opposing  ... and where <opposite set>.Delete(element) reported false
+//	target    and it is collected into ADDED (Added) / DELETED (Subtracted)
+func checkCollectorTable(r *Reporter, p *Prog) {
+	const pkg = "ds"
+	info := p.Pkg(pkg).TypesInfo
+	type row struct {
+		method           string
+		target, opposing string
+		up               bool
 	}
-	for m, want := range collectors {
-		fd := p.FuncDecl(pkg, "setArithmetic", m)
-		key := "ds.setArithmetic." + m
+	for _, rw := range []row{{"AddedElementsCollector", "ADDED", "DELETED", true}, {"SubtractedElementsCollector", "DELETED", "ADDED", false}} {
+		key := "ds.setArithmetic." + rw.method
+		fd := p.FuncDecl(pkg, "setArithmetic", rw.method)
 		if fd == nil {
 			r.Unresolved("arith/routing", key, "method not found")
 			continue
 		}
-		ok := false
+		// the returned factory call
+		var call *ast.CallExpr
 		ast.Inspect(fd.Body, func(n ast.Node) bool {
-			c, isCall := n.(*ast.CallExpr)
-			if !isCall || len(c.Args) != 4 || !strings.HasSuffix(exprKey(c.Fun), "elementsCollector") {
-				return true
-			}
-			a0, a1 := exprKey(c.Args[0]), exprKey(c.Args[1])
-			if strings.HasSuffix(a0, "."+want[0]+"()") && strings.HasSuffix(a1, "."+want[1]+"()") && exprKey(c.Args[2]) == want[2] && strings.Contains(exprKey(c.Args[3]), "First(threshold,1)") {
-				ok = true
-			}
-			return true
-		})
-		if ok {
-			r.Pass("arith/routing", key, p.posStr(fd.Pos()), fmt.Sprintf("target %s, opposing %s, increase=%s, default threshold 1", want[0], want[1], want[2]))
-		} else {
-			r.Fail("arith/routing", key, p.posStr(fd.Pos()), fmt.Sprintf("must build elementsCollector(%s, %s, %s, First(threshold, 1))", want[0], want[1], want[2]))
-		}
-	}
-	// threshold table in elementsCollector
-	if fd := p.FuncDecl(pkg, "setArithmetic", "elementsCollector"); fd == nil {
-		r.Unresolved("arith/threshold", "ds.setArithmetic.elementsCollector", "method not found")
-	} else {
-		// judged per direction (increase = true / false), with temporaries - also those hoisted out
-		// of the closures - and lo.Cond evaluated under that assumption:
-		//  step      the count function returns <current> + 1  /  <current> + -1
-		//  threshold targetSet.Add only where the new count == threshold  /  threshold-1
-		//  opposing  ... and where opposingSet.Delete(element) reported false
-		src := ""
-		okStep, okThr, okOpp, addsTarget := true, true, false, false
-		outer := newFuncCFG(p, info, fd.Body, "elementsCollector")
-		// the point where the collector closure is created (its captured variables have their final values)
-		var creation Point
-		for _, pt := range outer.Find(func(n ast.Node) bool { _, ok := n.(*ast.ReturnStmt); return ok }) {
-			creation = pt
-		}
-		var elemLit, countLit *ast.FuncLit
-		ast.Inspect(fd.Body, func(n ast.Node) bool {
-			if lit, ok := n.(*ast.FuncLit); ok {
-				switch lit.Type.Params.NumFields() {
-				case 2:
-					countLit = lit
-				case 1:
-					if elemLit == nil {
-						elemLit = lit
-					}
+			if rs, ok := n.(*ast.ReturnStmt); ok && len(rs.Results) == 1 {
+				if c, ok := ast.Unparen(rs.Results[0]).(*ast.CallExpr); ok {
+					call = c
 				}
 			}
 			return true
 		})
-		// value of an expression of a closure under a direction: closure-local parts are resolved in
-		// the closure, captured variables in the enclosing function at the creation point
-		valuesIn := func(lf *FuncCFG, e ast.Expr, pt Point, assign map[string]bool) []string {
+		if call == nil {
+			r.Fail("arith/routing", key, p.posStr(fd.Pos()), "the collector must be built by a factory of the package")
+			continue
+		}
+		role := func(e ast.Expr) string {
+			k := exprKey(e)
+			switch {
+			case strings.HasSuffix(k, ".AddedElements()"):
+				return "ADDED"
+			case strings.HasSuffix(k, ".DeletedElements()"):
+				return "DELETED"
+			case strings.Contains(k, "First(threshold,1)"):
+				return "T"
+			}
+			if tv, ok := info.Types[e]; ok && tv.Value != nil {
+				return tv.Value.String()
+			}
+			return "?" + k
+		}
+		// follow the chain of factories: env maps the current factory's parameter names to terms
+		env := map[string]string{}
+		var lit *ast.FuncLit
+		var factory *ast.FuncDecl
+		cur := call
+		argTerm := func(e ast.Expr) string { return role(e) }
+		for depth := 0; depth < 4 && cur != nil; depth++ {
+			fn := staticCallee(info, cur)
+			if fn == nil {
+				break
+			}
+			hd := p.decls().byFunc[fn.Origin()]
+			if hd == nil || hd.Body == nil || hd.Name.IsExported() || len(hd.Body.List) == 0 {
+				break
+			}
+			next := map[string]string{}
+			for i, po := range paramObjs(info, hd) {
+				if po != nil && i < len(cur.Args) {
+					next[po.Name()] = argTerm(cur.Args[i])
+				}
+			}
+			env = next
+			// the factory's last statement returns the literal (earlier statements may hoist values the
+			// literal captures: they are evaluated on the factory's graph) or, as its only statement, the
+			// next factory's result
+			rs, ok := hd.Body.List[len(hd.Body.List)-1].(*ast.ReturnStmt)
+			if !ok || len(rs.Results) != 1 {
+				break
+			}
+			switch x := ast.Unparen(rs.Results[0]).(type) {
+			case *ast.FuncLit:
+				lit, factory, cur = x, hd, nil
+			case *ast.CallExpr:
+				if len(hd.Body.List) != 1 {
+					cur = nil
+					break
+				}
+				// arguments of the next call are terms over this factory's parameters
+				prev := env
+				argTerm = func(e ast.Expr) string { return substTerms(exprKey(e), prev) }
+				cur = x
+			default:
+				cur = nil
+			}
+		}
+		if lit == nil || factory == nil {
+			r.Fail("arith/threshold", key, p.posStr(fd.Pos()), "no chain of unexported single-return factories from the collector to a function literal")
+			continue
+		}
+		assign := map[string]bool{}
+		for name, t := range env {
+			if t == "true" || t == "false" {
+				assign[name] = t == "true"
+			}
+		}
+		outer := newFuncCFG(p, info, factory.Body, key+"/factory")
+		var creation Point
+		for _, pt := range outer.Find(func(n ast.Node) bool { _, ok := n.(*ast.ReturnStmt); return ok }) {
+			creation = pt
+		}
+		var countLit *ast.FuncLit
+		ast.Inspect(lit.Body, func(n ast.Node) bool {
+			if l, ok := n.(*ast.FuncLit); ok && l.Type.Params.NumFields() == 2 && countLit == nil {
+				countLit = l
+			}
+			return true
+		})
+		if countLit == nil || lit.Type.Params.NumFields() != 1 {
+			r.Fail("arith/threshold", key, p.posStr(lit.Pos()), "expected a collector literal of one element that computes the new count in a literal (current, exists)")
+			continue
+		}
+		valuesIn := func(lf *FuncCFG, e ast.Expr, pt Point) []string {
 			re, rpt := lf.Resolve(e, pt)
 			set := map[string]bool{}
-			var rec func(x ast.Expr, depth int) []string
-			rec = func(x ast.Expr, depth int) []string {
+			var rec func(x ast.Expr) []string
+			rec = func(x ast.Expr) []string {
 				x = ast.Unparen(x)
 				switch y := x.(type) {
 				case *ast.BinaryExpr:
 					var out []string
-					for _, a := range rec(y.X, depth) {
-						for _, b := range rec(y.Y, depth) {
+					for _, a := range rec(y.X) {
+						for _, b := range rec(y.Y) {
 							out = append(out, "("+a+y.Op.String()+b+")")
 						}
 					}
@@ -877,8 +947,8 @@ func checkSetArithmetic(r *Reporter, p *Prog) {
 				}
 				return lf.ValuesUnder(x, rpt, assign)
 			}
-			for _, v := range rec(re, 4) {
-				set[v] = true
+			for _, v := range rec(re) {
+				set[normArith(substTerms(v, env))] = true
 			}
 			var out []string
 			for k := range set {
@@ -887,85 +957,135 @@ func checkSetArithmetic(r *Reporter, p *Prog) {
 			sort.Strings(out)
 			return out
 		}
-		if countLit == nil || elemLit == nil {
-			okStep, okThr = false, false
-		} else {
-			cf := newFuncCFG(p, info, countLit.Body, "count")
-			cur := countLit.Type.Params.List[0].Names[0].Name
-			ef := newFuncCFG(p, info, elemLit.Body, "collect")
-			adds := ef.Find(func(n ast.Node) bool {
-				c, ok := n.(*ast.CallExpr)
-				return ok && exprKey(c.Fun) == "targetSet.Add"
-			})
-			addsTarget = len(adds) > 0
-			_, notDeleted := ef.CondEdges(func(e ast.Expr) bool { return exprKey(e) == "opposingSet.Delete(element)" })
-			okOpp = len(notDeleted) > 0
-			for _, a := range adds {
-				if _, only := ef.OnlyThroughEdges(a, notDeleted); !only {
-					okOpp = false
+		cf := newFuncCFG(p, info, countLit.Body, key+"/count")
+		curName := countLit.Type.Params.List[0].Names[0].Name
+		ef := newFuncCFG(p, info, lit.Body, key+"/collect")
+		elem := litParamObjs(info, lit)[0]
+		termOf := func(e ast.Expr) string {
+			if id, ok := ast.Unparen(e).(*ast.Ident); ok {
+				if t, has := env[id.Name]; has {
+					return t
 				}
 			}
-			for _, dir := range []bool{true, false} {
-				assign := map[string]bool{"increase": dir}
-				wantStep := map[bool][]string{true: {"(" + cur + "+1)", "(1+" + cur + ")"}, false: {"(" + cur + "+-1)", "(-1+" + cur + ")", "(" + cur + "-1)"}}[dir]
-				wantThr := map[bool]string{true: "threshold", false: "(threshold-1)"}[dir]
-				// step
-				for _, b := range cf.G.Blocks {
-					for i, nd := range b.Nodes {
-						if rs, ok := nd.(*ast.ReturnStmt); ok && len(rs.Results) == 1 && b.Live {
-							vals := valuesIn(cf, rs.Results[0], Point{b, i}, assign)
-							src += fmt.Sprintf(" step[increase=%v]=%v", dir, vals)
-							ok := len(vals) == 1
-							if ok {
-								ok = false
-								for _, w := range wantStep {
-									if vals[0] == w {
-										ok = true
-									}
-								}
+			return "?" + exprKey(e)
+		}
+		isElemCall := func(n ast.Node, name, set string) bool {
+			c, ok := n.(*ast.CallExpr)
+			if !ok || len(c.Args) != 1 || objOfIdent(info, c.Args[0]) != elem {
+				return false
+			}
+			se, ok := ast.Unparen(c.Fun).(*ast.SelectorExpr)
+			return ok && se.Sel.Name == name && termOf(se.X) == set
+		}
+		var problems []string
+		adds := ef.Find(func(n ast.Node) bool { return isElemCall(n, "Add", rw.target) })
+		wrongAdds := ef.Find(func(n ast.Node) bool { return isElemCall(n, "Add", rw.opposing) })
+		if len(adds) == 0 || len(wrongAdds) > 0 {
+			problems = append(problems, "the element must be collected into the "+strings.ToLower(rw.target)+" set of the mutations")
+		}
+		_, notDeleted := ef.CondEdges(func(e ast.Expr) bool { return isElemCall(ast.Unparen(e), "Delete", rw.opposing) })
+		okOpp := len(notDeleted) > 0
+		for _, a := range adds {
+			if _, only := ef.OnlyThroughEdges(a, notDeleted); !only {
+				okOpp = false
+			}
+		}
+		if !okOpp {
+			problems = append(problems, "the element must be collected only where "+strings.ToLower(rw.opposing)+".Delete(element) reported false (cancel against the opposite set first)")
+		}
+		wantStep := map[bool][]string{true: {"(" + curName + "+1)", "(1+" + curName + ")"}, false: {"(" + curName + "+-1)", "(-1+" + curName + ")", "(" + curName + "-1)"}}[rw.up]
+		wantThr := map[bool]string{true: "T", false: "(T-1)"}[rw.up]
+		src := ""
+		for _, b := range cf.G.Blocks {
+			for i, nd := range b.Nodes {
+				if rs, ok := nd.(*ast.ReturnStmt); ok && len(rs.Results) == 1 && b.Live {
+					vals := valuesIn(cf, rs.Results[0], Point{b, i})
+					src += fmt.Sprintf(" step=%v", vals)
+					good := false
+					if len(vals) == 1 {
+						for _, w := range wantStep {
+							if vals[0] == w {
+								good = true
 							}
-							if !ok {
-								okStep = false
-							}
 						}
 					}
-				}
-				// threshold: the Add is dominated by an equality of the Compute result with the crossing value
-				var crossing []Edge
-				ef.forEachEdgeFact(func(e Edge, b *cfg.Block, ft fact) {
-					be, isBin := ast.Unparen(ft.Atom).(*ast.BinaryExpr)
-					if !isBin || !((be.Op == token.EQL && ft.Pol) || (be.Op == token.NEQ && !ft.Pol)) {
-						return
-					}
-					pt := Point{b, len(b.Nodes) - 1}
-					for _, sides := range [][2]ast.Expr{{be.X, be.Y}, {be.Y, be.X}} {
-						if !strings.Contains(ef.KeyAt(sides[0], pt), ".Compute(element,") {
-							continue
-						}
-						vals := valuesIn(ef, sides[1], pt, assign)
-						src += fmt.Sprintf(" crossing[increase=%v]=%v", dir, vals)
-						if len(vals) == 1 && vals[0] == wantThr {
-							crossing = append(crossing, e)
-						}
-					}
-				})
-				if len(crossing) == 0 {
-					okThr = false
-				}
-				for _, a := range adds {
-					if _, only := ef.OnlyThroughEdges(a, crossing); !only {
-						okThr = false
+					if !good {
+						problems = append(problems, fmt.Sprintf("the count must change by %s1, found %v", map[bool]string{true: "+", false: "-"}[rw.up], vals))
 					}
 				}
 			}
 		}
-		if okStep && okThr && okOpp && addsTarget {
-			r.Pass("arith/threshold", "ds.setArithmetic.elementsCollector", p.posStr(fd.Pos()), "count +-1 by direction; crossing = threshold (up) / threshold-1 (down); cancels against the opposite set first")
+		var crossing []Edge
+		ef.forEachEdgeFact(func(e Edge, b *cfg.Block, ft fact) {
+			be, isBin := ast.Unparen(ft.Atom).(*ast.BinaryExpr)
+			if !isBin || !((be.Op == token.EQL && ft.Pol) || (be.Op == token.NEQ && !ft.Pol)) {
+				return
+			}
+			pt := Point{b, len(b.Nodes) - 1}
+			for _, sides := range [][2]ast.Expr{{be.X, be.Y}, {be.Y, be.X}} {
+				if !strings.Contains(ef.KeyAt(sides[0], pt), ".Compute("+elem.Name()+",") {
+					continue
+				}
+				vals := valuesIn(ef, sides[1], pt)
+				src += fmt.Sprintf(" crossing=%v", vals)
+				if len(vals) == 1 && vals[0] == wantThr {
+					crossing = append(crossing, e)
+				}
+			}
+		})
+		okThr := len(crossing) > 0
+		for _, a := range adds {
+			if _, only := ef.OnlyThroughEdges(a, crossing); !only {
+				okThr = false
+			}
+		}
+		if !okThr {
+			problems = append(problems, "the element must be collected only where the new count == "+map[bool]string{true: "threshold", false: "threshold-1"}[rw.up]+" (default threshold 1)")
+		}
+		if len(problems) == 0 {
+			r.Pass("arith/threshold", key, p.posStr(fd.Pos()), fmt.Sprintf("count %s1; crossing %s; cancels against the %s set first; collects into the %s set", map[bool]string{true: "+", false: "-"}[rw.up], wantThr, strings.ToLower(rw.opposing), strings.ToLower(rw.target)))
 		} else {
-			r.Fail("arith/threshold", "ds.setArithmetic.elementsCollector", p.posStr(fd.Pos()), fmt.Sprintf("threshold table differs (step=%v threshold=%v opposing=%v target=%v): %s", okStep, okThr, okOpp, addsTarget, src))
+			r.Fail("arith/threshold", key, p.posStr(fd.Pos()), strings.Join(problems, "; ")+" ["+strings.TrimSpace(src)+"]")
 		}
 	}
 }
+
+// substTerms replaces whole identifiers of a canonical key by their terms.
+func substTerms(k string, env map[string]string) string {
+	if len(env) == 0 {
+		return k
+	}
+	return identRe.ReplaceAllStringFunc(k, func(id string) string {
+		if t, ok := env[id]; ok && !strings.HasPrefix(t, "?") {
+			if strings.ContainsAny(t, "+-") && !strings.HasPrefix(t, "(") && !isNumber(t) {
+				return "(" + t + ")"
+			}
+			return t
+		}
+		return id
+	})
+}
+
+var identRe = regexp.MustCompile(`[A-Za-z_][A-Za-z0-9_]*`)
+
+func isNumber(s string) bool {
+	_, err := strconv.Atoi(s)
+	return err == nil
+}
+
+// normArith removes redundant parentheses around atoms: ((T-1)) -> (T-1), (T) -> T.
+func normArith(k string) string {
+	for {
+		n := parenAtomRe.ReplaceAllString(k, "$1")
+		n = strings.ReplaceAll(n, "((T-1))", "(T-1)")
+		if n == k {
+			return k
+		}
+		k = n
+	}
+}
+
+var parenAtomRe = regexp.MustCompile(`\(([A-Za-z_0-9]+)\)`)
 
 func checkSerializableOrderedMap(r *Reporter, p *Prog) {
 	const pkg = "ds/serializableorderedmap"
